@@ -40,7 +40,7 @@ TOTALS = [1.0, 7.9, 1000.5]
 def bounds(tier):
     return {'deviations': 1 if tier == 'quick' else '2 for rows <= 100, 1 otherwise',
             'rows': ['default', 1, 2, 3, 7, 10, 100, 1000, 10000] + ([] if tier == 'quick' else [100000, 1000000]),
-            'models': '8 graphs on 3 attributes + chain4 + star4 x 3 value classes x 3 totals'}
+            'models': '8 graphs on 3 attributes, chain4, star4, triple3, cycle4, diamond4, two disconnected pairs, two models with names sorting differently from the domain order; x 3 value classes x 3 totals'}
 
 
 def model_list():
@@ -54,6 +54,9 @@ def model_list():
     out.append({'k': 4, 'edges': [(A[0], A[1]), (A[1], A[2]), (A[2], A[3]), (A[3], A[0]), (A[0], A[2])], 'name': 'diamond4'})
     out.append({'k': 4, 'edges': [(A[0], A[1]), (A[2], A[3])], 'name': 'two-edges4', 'scale': 2.0})
     out.append({'k': 4, 'edges': [(A[3], A[2]), (A[1], A[0])], 'name': 'two-edges4-rev', 'scale': 2.0})
+    # attribute names whose sort order differs from the domain order (e, c, a, dd), with columns that have two parents
+    out.append({'k': 3, 'edges': [(A[0], A[1], A[2])], 'name': 'triple3-scrambled', 'naming': 'scrambled'})
+    out.append({'k': 4, 'edges': [(A[0], A[1]), (A[1], A[2]), (A[2], A[3]), (A[3], A[0]), (A[0], A[2])], 'name': 'diamond4-scrambled', 'naming': 'scrambled'})
     return out
 
 
@@ -70,10 +73,10 @@ class World:
         from mbi import Domain, GraphicalModel
         spec = model_list()[mi]
         k = spec['k']
-        self.attrs = S.ATTRS[:k]
+        self.attrs = S.rename(S.ATTRS[:k], spec.get('naming', 'letters'))
         self.sizes = [2, 3, 2, 2][:k]
         self.total = total
-        cliques = [tuple(e) for e in spec['edges']]
+        cliques = [tuple(S.rename(tuple(e), spec.get('naming', 'letters'))) for e in spec['edges']]
         rng = np.random.RandomState(zlib.crc32(repr((seed, mi, vclass)).encode()) % 2 ** 31)
         pots = []
         for c in cliques:
@@ -87,7 +90,7 @@ class World:
         elif vclass == 'zero-values':
             # value 1 of B impossible (B has 3 values); with an edge through B this is a whole slice
             for c, arr in pots:
-                if c == ('B',):
+                if c == (self.attrs[1],):
                     arr[1] = -np.inf
         self.pots = pots
         self.cliques = cliques
